@@ -88,6 +88,10 @@ def decide(ctx, prop, rows, gens):
             elif not holds or exp is None:
                 st["known_finding_hits"]["KF-C06-embeddedAddl"] = st["known_finding_hits"].get("KF-C06-embeddedAddl", 0) + 1
             continue
+        if "PANIC" in r["impl"] and r["op"] == "jsondec" and prop == "C08":
+            # whatever the model says about the document: decoding must return a value or an error
+            viol.append(r)
+            continue
         if not m or m[0].startswith("unmodelled") or m[0] == "no-model":
             st["unmodelled"] += 1
             continue
@@ -145,6 +149,10 @@ def decide(ctx, prop, rows, gens):
             if fault == "valid":
                 re_i = re.search(r"reenc=(\w*)", io)
                 okr = (not conf) or (io.startswith("dec=ok") and bool(re_i) and re_i.group(1) == expect)
+            elif r["type"] in ("Union",) and fault.split(":")[0] in ("drop", "swap", "null"):
+                # the discriminator property of a oneOf: absent / null / wrong JSON kind must be refused;
+                # the error class "discriminator" is what names it (the message quotes the value)
+                okr = io.startswith("dec=err(")
             elif fault.startswith("drop:"):
                 okr = io == "dec=err(missing,%s)" % fault[5:].encode().hex()
             elif fault.startswith("swap:"):
@@ -252,6 +260,7 @@ def check(ctx, prop, modules, theorems, rule, explanation, assumptions, level="p
         for g in gens:
             k = g[1] if not (len(g) > 3 and g[3]) else "broken"
             gout[k] = gout.get(k, 0) + 1
+        core.flag_broken_packages(ctx, gens, "none of its types can be encoded or decoded")
     cov = dict(audit)
     cov.update({
         "trusted_base": TRUSTED, "evaluations": st["evaluations"], "distinct_nontrivial": st["distinct_nontrivial"], "rule": rule,
